@@ -1,0 +1,77 @@
+//! Verification hooks.
+//!
+//! This module only exists when the crate is compiled with `--cfg rigetti_quil_rs_verif`.
+//! It provides a thread-local event sink: instrumented places in the library call [`emit`] with a
+//! borrowed [`VerifEvent`]; a test harness installs a sink with [`set_sink`] and turns the events
+//! into whatever trace format it wants.  With no sink installed, [`emit`] is a thread-local read and
+//! a branch.  The hooks add no dependency and never change behaviour.
+
+use std::cell::RefCell;
+
+use crate::instruction::{Instruction, Target};
+
+/// One observable internal step of the library.
+#[derive(Debug)]
+pub enum VerifEvent<'a> {
+    /// One iteration of the loop in `impl From<&Program> for ControlFlowGraph`, after the
+    /// instruction has been processed.
+    CfgStep {
+        instruction: &'a Instruction,
+        /// `instruction_index_offset` after the step
+        offset: usize,
+        /// number of blocks pushed so far
+        blocks: usize,
+        /// the currently open label, if any
+        open_label: Option<&'a Target>,
+        /// number of instructions in the currently open block
+        open_instructions: usize,
+    },
+    /// `Calibrations::expand_inner` was entered for `instruction`; `depth` is the number of
+    /// instructions currently being expanded (the length of the breadcrumb trail).
+    CalExpandEnter {
+        instruction: &'a Instruction,
+        depth: usize,
+    },
+    /// `Calibrations::expand_inner` found `instruction` in its breadcrumb trail and is about to
+    /// return the recursive-calibration error.
+    CalExpandRecursive {
+        instruction: &'a Instruction,
+        depth: usize,
+    },
+    /// `Calibrations::expand_inner` finished looking for a matching calibration: `body_len` is
+    /// `Some(n)` with the number of instructions of the matched (substituted) calibration body,
+    /// `None` if nothing matched.
+    CalExpandMatched {
+        instruction: &'a Instruction,
+        depth: usize,
+        body_len: Option<usize>,
+    },
+}
+
+type Sink = Box<dyn FnMut(&VerifEvent<'_>)>;
+
+thread_local! {
+    static SINK: RefCell<Option<Sink>> = const { RefCell::new(None) };
+}
+
+/// Install an event sink for the current thread, replacing any previous one.
+pub fn set_sink(sink: Sink) {
+    SINK.with(|s| *s.borrow_mut() = Some(sink));
+}
+
+/// Remove the current thread's event sink.
+pub fn clear_sink() {
+    SINK.with(|s| *s.borrow_mut() = None);
+}
+
+/// Report an event to the current thread's sink, if one is installed.
+#[inline]
+pub(crate) fn emit(event: VerifEvent<'_>) {
+    SINK.with(|s| {
+        if let Ok(mut guard) = s.try_borrow_mut() {
+            if let Some(sink) = guard.as_mut() {
+                sink(&event);
+            }
+        }
+    });
+}
